@@ -28,6 +28,10 @@ FRAGMENTS = [
     'Head\n====\n\nSub\n---\n\na\n\nSub\n---\n\nb\n\nSub\n---\n\nc',
     'Step\n====\n\na\n\nStep 2\n======\n\nb\n\nStep\n====\n\nc\n\nStep 1\n======\n\nd\n\nStep\n====\n\ne', 'Level 22\n========\n\na\n\nLevel 22\n========\n\nb\n\nLevel\n=====\n\nc\n\nLevel 2\n=======\n\nd',
     '@note ' + 'word ' * 40 + 'and no colon', '@param name ' + 'lorem ipsum ' * 25, 'Text.\n\n@return ' + 'x ' * 60,
+    # types that start with a bracket or parenthesis (the type-expression renderer), on parameters, returns and attributes
+    '@param x: the x\n@type x: (int, str)\n@rtype: [int]', ':param x: the x\n:type x: (int, str)\n:rtype: [int]', '@ivar v: doc\n@type v: (int, str)', ':ivar v: doc\n:type v: [int]',
+    'Args:\n    x ((int, str)): the x\n\nReturns:\n    [int]: r\n\nAttributes:\n    v ((int, str)): doc', 'Parameters\n----------\nx : (int, str)\n    the x\n\nAttributes\n----------\nv : [int]\n    doc',
+    '@type: (int, str)', ':type: [int]',
     # a tokenizer warning first, a fatal error later (the order of the collected errors must not matter)
     'Frob A.\n\n@note that this is slow B\n\n    This paragraph is indented too much C.', 'Frob A.\n\nUsage\n======\n\nCall it B.\n\n    Indented too much C.',
     'Frob A.\n\n@note that this is slow B\n\nClosing brace without opening C} here.', '@note that this is slow\n\nText L{unclosed',
@@ -256,6 +260,16 @@ def _check1(case, log=None):
         elif lo.docstring == ro.docstring and lo.docstring.strip() and type(lo.parsed_docstring) is not type(ro.parsed_docstring):
             fails.append({'observed': f'{late} (assigned docstring) is parsed as {type(lo.parsed_docstring).__name__}, the same text on {ref} as {type(ro.parsed_docstring).__name__}',
                           'required': 'any docstring text attached to any kind of object is treated alike', 'class': 'late-parsed'})
+    # the renderer's own "could not render this" markers stand for text that is not shown
+    # (not judged for text with characters no XML page can carry - form feed and other C0 controls, U+FFFE/U+FFFF, surrogates -, where
+    #  the flattener itself gives up: KF-C08-lone-surrogate is the listed instance of that family)
+    xml_illegal = re.search('[\x00-\x08\x0b\x0c\x0e-\x1f\ufffe\uffff\ud800-\udfff]', doc) is not None
+    for n in ([] if xml_illegal else list(got)):
+        for part, text_ in zip(('body', 'summary', 'toc'), got[n]):
+            if text_ and re.search(r'Broken (description|summary)', text_):
+                fails.append({'observed': f'{n}: the {part} shows a "Broken ..." marker in place of text: {html.unescape(text_)!r:.160}',
+                              'required': 'the full HTML body and the summary are always produced (or the original text is shown as plain text)', 'class': 'broken-marker:' + part})
+                break
     # marker words of the docstring (plain words next to the markup under test) are never lost, whichever way the docstring is rendered
     for n in TARGETS:
         o = system.allobjects.get(n)
@@ -366,5 +380,5 @@ HARNESS = {
         'bound': 'about 170 markup fragments (epytext, reST, google, numpy, control/Unicode characters, deep nesting, long text) and 150 (2500) '
                  'random combinations / mutations / truncations of them x 5 docformats x process-types on/off (sampled in the quick tier), each '
                  'attached to 8 kinds of object at once; per-module __docformat__ incl. names of non-parser modules; 60 s per case',
-        'budget_s': {'quick': 240, 'thorough': 3000}},
+        'budget_s': {'quick': 240, 'thorough': 1500}},
 }
